@@ -703,8 +703,10 @@ class Interp:
                     # generator: run eagerly, the call yields the list of produced
                     # values (assumption: the consumer exhausts it, no interleaving)
                     frame.yields = []
-                elif isinstance(n, (ast.YieldFrom, ast.Await)) and self._owner_def(fnode, n):
-                    self.outside("yield from / await body", n)
+                elif isinstance(n, ast.YieldFrom) and self._owner_def(fnode, n):
+                    self.outside("yield from body", n)
+                elif isinstance(n, ast.Await) and self._owner_def(fnode, n) and getattr(self, "await_hook", None) is None:
+                    self.outside("await body (no await_hook given by the case)", n)
             loops = sorted(
                 (n for n in ast.walk(fnode) if isinstance(n, (ast.For, ast.While)) and self._owner_def(fnode, n)),
                 key=lambda n: (n.lineno, n.col_offset),
@@ -1337,6 +1339,16 @@ class Interp:
             self.outside("yield outside generator frame", e)
         f.yields.append(self.eval(e.value, frame) if e.value is not None else None)
         return None
+
+    def e_Await(self, e, frame):
+        """coroutines are run eagerly (a call of an `async def` yields its return value), so awaiting such a
+        call is the identity; awaiting anything else is a clock boundary whose meaning the case provides
+        (await_hook: e.g. 'continue in a clock in which the awaited condition holds')."""
+        v = self.eval(e.value, frame)
+        hook = getattr(self, "await_hook", None)
+        if hook is None:
+            self.outside("await without an await_hook", e)
+        return hook(self, v, e)
 
     def e_Starred(self, e, frame):
         self.outside("starred expression", e)
